@@ -259,7 +259,8 @@ def setdata_tie(ctx, nhist, nops):
             ctx.count('setdata:oracle-mismatch:' + key)
             # the same root causes as the two witnesses are reported once, by probe_cfg; anything else is new
             if not ((kind == 'o2m' and not fixes['fixRemove']) or (kind == 'm2m' and not owning and not fixes['fixFlush'])):
-                ctx.violation('count() / len() of a collection differs from the number of items the program has',
+                ctx.violation('`item in coll` differs from whether the program has the item in the collection' if f['k'] == 'contains' else
+                              'count() / len() of a collection differs from the number of items the program has',
                               {'watch': kind, 'owning': owning, 'db': f['db'], 'ops': f['ops']}, observed=f['got'], expected=f['expected'], key=key)
         batch.append((kind, owning, r))
     if not ctx.driver.ok:
